@@ -83,6 +83,8 @@ function table(patU,flagsBase,subjU){
   try { re=new RegExp(pat,flagsBase+"g"); } catch(e){ return JSON.stringify({err:e.name}); }
   var t=[];
   for (var p=0;p<=s.length;p++){
+    // a fresh object per start position: the table is the oracle and must not depend on per-object match caches
+    re=new RegExp(pat,flagsBase+"g");
     re.lastIndex=p; var m=re.exec(s);
     t.push({m:M(m),li:re.lastIndex,r:m===null?null:__find(re,s,p)});
   }
@@ -769,6 +771,12 @@ func runCase1(c Case) vh.Record {
 		tags["named-groups"] = true
 	}
 	tags[fmt.Sprintf("deopt:%d", c.Deopt)] = true
+	if c.Start > 0 && c.Start < len(c.Subj) && c.Subj[c.Start-1] >= 0xD800 && c.Subj[c.Start-1] <= 0xDBFF && c.Subj[c.Start] >= 0xDC00 && c.Subj[c.Start] <= 0xDFFF {
+		tags["start:inside-pair"] = true
+	}
+	if strings.Contains(string(utf16ToRunes(c.Pat)), `\c`) || strings.Contains(string(utf16ToRunes(c.Pat)), `\x`) {
+		tags["pattern:control-escape"] = true
+	}
 	// human-readable observation
 	type hr struct {
 		Pat   string    `json:"pat"`
@@ -914,12 +922,13 @@ func tagList(m map[string]bool) []string {
 // generator
 
 type pgen struct {
-	r     *vh.Rng
-	ncap  int
-	names [][2]any
-	lits  []rune // literals used, to bias the subject
-	uflag bool
-	safe  bool // only constructs on which both engines are documented to agree
+	r       *vh.Rng
+	ncap    int
+	names   [][2]any
+	lits    []rune // literals used, to bias the subject
+	uflag   bool
+	usedEsc bool
+	safe    bool // only constructs on which both engines are documented to agree
 }
 
 var litPool = []rune{'a', 'b', 'c', 'a', 'b', 'A', 'x', '1', ' ', 'é', 'É', 'ß', 0x17F, 0x212A, 0x2603, 0x1F600, 0x1F601, 0x10400, 0x10428}
@@ -943,7 +952,9 @@ func (g *pgen) class() string {
 	var sb strings.Builder
 	n := 1 + g.r.Intn(3)
 	for i := 0; i < n; i++ {
-		switch g.r.Pick(5, 2, 2) {
+		switch g.r.Pick(5, 2, 2, 1) {
+		case 3:
+			sb.WriteString(g.escape(true))
 		case 0:
 			sb.WriteString(g.lit())
 		case 1:
@@ -958,7 +969,41 @@ func (g *pgen) class() string {
 	return "[" + neg + sb.String() + "]"
 }
 
+type escLit struct {
+	src string
+	ch  rune
+}
+
+// control / hex / legacy octal escapes with the character they denote
+var escAny = []escLit{{`\cA`, 1}, {`\cJ`, 10}, {`\cP`, 16}, {`\cZ`, 26}, {`\ca`, 1}, {`\cp`, 16}, {`\cz`, 26},
+	{`\x10`, 0x10}, {`\x41`, 'A'}, {`\x7f`, 0x7f}, {`\xe9`, 0xe9}, {`\0`, 0}, {`\t`, 9}, {`\n`, 10}, {`\v`, 11}, {`\f`, 12}, {`\r`, 13},
+	{`\u0010`, 0x10}}
+var escLegacy = []escLit{{`\7`, 7}, {`\12`, 10}, {`\20`, 16}, {`\101`, 'A'}, {`\377`, 0xff}, {`\141`, 'a'}, {`\00`, 0}}
+
+func (g *pgen) escape(inClass bool) string {
+	pool := escAny
+	// legacy octal escapes are Annex B (no u flag); outside a class \N with N <= number of groups is a back-reference,
+	// so they are only used while the pattern has no capture group yet
+	if !g.uflag && (inClass || g.ncap == 0) && g.r.Chance(45) {
+		pool = escLegacy
+	}
+	e := pool[g.r.Intn(len(pool))]
+	if g.uflag && e.src == `\0` {
+		e = pool[0] // under u a digit after \0 would be a SyntaxError
+	}
+	if inClass && g.r.Chance(15) {
+		g.lits = append(g.lits, 8)
+		return `\b` // backspace inside a class
+	}
+	g.lits = append(g.lits, e.ch, e.ch)
+	g.usedEsc = true
+	return e.src
+}
+
 func (g *pgen) atom(depth int) string {
+	if g.r.Chance(7) {
+		return g.escape(false)
+	}
 	switch g.r.Pick(40, 8, 10, 12, 14, 6) {
 	case 0:
 		return g.lit()
@@ -1104,6 +1149,20 @@ func genRun(r *vh.Rng) Case {
 	}
 	if r.Chance(45) {
 		c.Start = r.Intn(len(subj) + 3)
+	}
+	if g.uflag && r.Chance(35) {
+		// lastIndex inside a surrogate pair
+		for i := 0; i+1 < len(subj); i++ {
+			if subj[i] >= 0xD800 && subj[i] <= 0xDBFF && subj[i+1] >= 0xDC00 && subj[i+1] <= 0xDFFF {
+				c.Start = i + 1
+				if r.Bool() {
+					break
+				}
+			}
+		}
+	}
+	if strings.Contains(flags, "y") && !strings.Contains(flags, "g") && c.Start == 0 && r.Chance(50) {
+		c.Start = 1 + r.Intn(len(subj)+1)
 	}
 	nops := 1 + r.Intn(4)
 	for i := 0; i < nops; i++ {
